@@ -243,9 +243,7 @@ func decodeStream1(stream []byte, rc readCfg, limit int) (res decodeOutcome) {
 	for calls := 0; ; calls++ {
 		n, err := r.Read(buf)
 		out = append(out, buf[:n]...)
-		for j := 0; j < n; j += 1 + n/64 {
-			buf[j] ^= 0x5A // the caller reuses its buffer
-		}
+		scribble(buf[:n]) // the caller reuses its buffer
 		if err != nil {
 			res.out, res.err, res.clean = out, err, err == io.EOF
 			return
